@@ -24,11 +24,12 @@ package main
 //	    pointer: sharing between clients is visible), hist (histogram set), log
 //	verif-wiring-done <number of refs> <number of peers>
 //
-// A configured SCION daemon address is replaced by 127.0.0.1:1 (nothing listens
-// there, connections are refused at once), so that the daemon-dependent part of
-// createClocks (pather, DRKey fetcher, SPAO flags) runs without any daemon
-// being contacted; clock objects are only constructed, no measurement is made,
-// no device is opened.
+// Clock objects are only constructed: no measurement is made, no device is
+// opened. A configured scion_daemon_address is used as it is (createClocks
+// then starts the pather and, with "spao", the DRKey fetcher against it, and
+// sets the SPAO flags): the caller provides a daemon there - a stub whose
+// calls fail at once is enough. If createClocks has not come back after 30 s
+// (no daemon answers at the address) the program exits with status 3.
 
 import (
 	"fmt"
@@ -36,6 +37,7 @@ import (
 	"os"
 	"reflect"
 	"strings"
+	"time"
 
 	"example.com/scion-time/core/client"
 	"example.com/scion-time/net/ntske"
@@ -118,9 +120,10 @@ func init() {
 		return
 	}
 	cfg := loadConfig(file)
-	if cfg.SCIONDaemonAddr != "" {
-		cfg.SCIONDaemonAddr = "127.0.0.1:1"
-	}
+	time.AfterFunc(30*time.Second, func() {
+		fmt.Println("verif-wiring-timeout")
+		os.Exit(3)
+	})
 	localAddr := localAddress(cfg)
 	localAddr.Host.Port = 0
 	refClocks, peerClocks := createClocks(cfg, localAddr, slog.Default())
